@@ -7,6 +7,7 @@ import (
 	"io"
 	"sort"
 
+	"github.com/smart-core-os/sc-api/go/traits"
 	"google.golang.org/grpc"
 	"google.golang.org/protobuf/proto"
 	"google.golang.org/protobuf/reflect/protoreflect"
@@ -202,4 +203,110 @@ func defaultNameCase(r *vk.Run, mt protoreflect.MessageType, rng *vk.Rand, isReq
 			r.Violation(base+"/"+clause+"/"+class, detail+"\nexpected "+vk.JSON(want), full)
 		}
 	}
+}
+
+// defaultNameOverlappingStreams: one interceptor instance serves several streams that are open at the same time.
+// Each handler must keep talking to its own caller: the request it receives (name filled in only when empty), what
+// it sends, its context. The handlers are stepped in lock-step (A receives, B receives, A sends, B sends, ...), so
+// nothing depends on timing.
+func defaultNameOverlappingStreams(r *vk.Run) {
+	type side struct {
+		ss     *fakeServerStream
+		name   string
+		seen   string
+		ctxOK  bool
+		step   chan struct{}
+		done   chan error
+		sent   []string
+		ctxKey any
+	}
+	n := r.Pick(20, 400)
+	for i := 0; i < n; i++ {
+		if !r.Mine(i) {
+			continue
+		}
+		rng := r.CaseRand("defname-overlap", i)
+		icpt := name.IfAbsentStreamInterceptor("the-default")
+		k := rng.Range(2, 3)
+		sides := make([]*side, k)
+		for j := range sides {
+			s := &side{step: make(chan struct{}), done: make(chan error, 1)}
+			if rng.Bool() {
+				s.name = fmt.Sprintf("caller-%d", j)
+			}
+			type key struct{ j int }
+			s.ctxKey = key{j}
+			ctx := context.WithValue(context.Background(), s.ctxKey, j)
+			s.ss = &fakeServerStream{ctx: ctx, req: &traits.PullOnOffRequest{Name: s.name, UpdatesOnly: j%2 == 0}}
+			sides[j] = s
+			j := j
+			go func() {
+				s.done <- icpt(nil, s.ss, &grpc.StreamServerInfo{FullMethod: "/x/Pull", IsServerStream: true}, func(_ any, stream grpc.ServerStream) error {
+					<-s.step
+					req := &traits.PullOnOffRequest{}
+					if err := stream.RecvMsg(req); err != nil {
+						return err
+					}
+					s.seen = req.Name
+					s.ctxOK = stream.Context().Value(s.ctxKey) == j
+					for m := 0; m < 2; m++ {
+						<-s.step
+						tag := fmt.Sprintf("from-%d-%d", j, m)
+						if err := stream.SendMsg(&traits.PullOnOffResponse{Changes: []*traits.PullOnOffResponse_Change{{Name: tag}}}); err != nil {
+							return err
+						}
+						s.sent = append(s.sent, tag)
+					}
+					<-s.step
+					return nil
+				})
+			}()
+		}
+		// lock-step: every handler receives, then every handler sends, twice, then all return
+		finished := make([]bool, k)
+		for phase := 0; phase < 4; phase++ {
+			for j, s := range sides {
+				if finished[j] {
+					continue
+				}
+				select {
+				case s.step <- struct{}{}:
+				case <-s.done: // the handler gave up early (an error it should not have seen)
+					finished[j] = true
+				}
+				vk.Quiesce()
+			}
+		}
+		for j, s := range sides {
+			if !finished[j] {
+				<-s.done
+			}
+		}
+		r.Eval(1)
+		r.Count("default-name-overlapping-stream-scenarios", 1)
+		r.Distinct(fmt.Sprintf("defname-overlap|%d|%v", k, sides[0].name != ""))
+		for j, s := range sides {
+			want := s.name
+			if want == "" {
+				want = "the-default"
+			}
+			var got []string
+			s.ss.mu.Lock()
+			for _, m := range s.ss.msgs {
+				if pm, ok := m.(*traits.PullOnOffResponse); ok && len(pm.Changes) > 0 {
+					got = append(got, pm.Changes[0].Name)
+				}
+			}
+			s.ss.mu.Unlock()
+			switch {
+			case s.seen != want:
+				r.Violation("C12/default-name/stream/overlapping-streams/request", fmt.Sprintf("case %d: %d streams open at once behind one interceptor; handler %d received name %q, its caller sent %q (default \"the-default\")", i, k, j, s.seen, s.name), map[string]any{"case": i})
+			case !s.ctxOK:
+				r.Violation("C12/default-name/stream/overlapping-streams/context", fmt.Sprintf("case %d: handler %d saw another call's context", i, j), map[string]any{"case": i})
+			case fmt.Sprint(got) != fmt.Sprint(s.sent) || len(got) != 2:
+				r.Violation("C12/default-name/stream/overlapping-streams/responses", fmt.Sprintf("case %d: %d streams open at once behind one interceptor; handler %d sent %v, its caller received %v", i, k, j, s.sent, got), map[string]any{"case": i})
+			}
+		}
+	}
+	r.Require("default-name-overlapping-stream-scenarios", 5)
 }
